@@ -86,8 +86,8 @@ Example C11_nonvacuous :
   compare (VArr [VNum (NInt 1); VArr []]) (VArr [VNum (NFlt (Z_to_f64 1))]) = Gt.
 Proof.
   split; [|vm_compute; auto].
-  apply Forall_forall. intros v Hv. apply goodb_spec. revert v Hv. apply Forall_forall.
-  vm_compute. repeat constructor.
+  assert (H : forallb goodb ex_vals = true) by (vm_compute; reflexivity).
+  rewrite forallb_forall in H. apply Forall_forall. intros v Hv. apply goodb_spec. now apply H.
 Qed.
 
 (* at 2^53 the float conversion merges neighbours: 2^53 (int) = 2^53 (float) = 2^53+1 (int) but
